@@ -20,6 +20,7 @@ The model is tied to the real `WriteTaskState` + real `UplinkReporter`/`UplinkRe
 -/
 import SwimVerif.Proofs.LinksWTCount
 import SwimVerif.Model.Counters
+import SwimVerif.Proofs.ReadFeedCount
 
 set_option linter.unusedVariables false
 namespace SwimVerif.WT
@@ -252,3 +253,62 @@ example : (run {} [.add 2, .load, .add 3, .cas false, .load, .cas false]).taken 
 example : (run {} [.add 2, .load, .add 3, .cas false]).n = 5 := by decide
 
 end SwimVerif.Ctr
+
+/-! ## Command counters (read task)
+Model `Model/ReadFeed.lean` (`RF`): the aggregate reporter is bumped in `read_task`, the lane's reporter at the top of
+`LaneSender::feed_frame` — both BEFORE the body is inspected or written, so a command the lane's sender rejects
+(`LaneSendError::Extraction`, map lanes) is counted by both; commands for unknown lanes and link / sync / unlink
+envelopes by neither. "Received" = processed by the read task (`picked`). Tied to the real read task, `LaneSender`
+and `UplinkReporter`s by the `rf` engines (every snapshot compared; monitor reasons `command-count-*`). -/
+namespace SwimVerif.RF
+
+/-- **Per lane: snapshots + residual = commands received for the lane**, for every configuration (value and map
+lanes, any set of invalid bodies, with or without the immediate flush) and every interleaving of remotes' envelopes,
+idle flushes, agent reads and snapshots of any reader. -/
+theorem C20_command_lane_counts_conserved (c : Cfg) (ops : List Op) (l : Nat) (hl : c.known.contains l = true) :
+    (run c {} ops).laneSnap l + (run c {} ops).laneCount l = cmdsFor l (run c {} ops).picked :=
+  (cinv_run c ops {} (cinv_init c)).lane l hl
+
+/-- **Aggregate: snapshots + residual = commands received for existing lanes.** -/
+theorem C20_command_aggregate_counts_conserved (c : Cfg) (ops : List Op) :
+    (run c {} ops).aggSnap + (run c {} ops).aggCount = cmdsKnown c (run c {} ops).picked :=
+  (cinv_run c ops {} (cinv_init c)).agg
+
+/-- **The aggregate is the sum of the lanes** (totals = snapshots taken + residual): lane and aggregate reporters
+count exactly the same envelopes. -/
+theorem C20_command_aggregate_is_sum_of_lanes (c : Cfg) (hn : c.known.Nodup) (ops : List Op) :
+    (run c {} ops).aggSnap + (run c {} ops).aggCount
+      = (c.known.map (fun l => (run c {} ops).laneSnap l + (run c {} ops).laneCount l)).sum := by
+  have hi := cinv_run c ops {} (cinv_init c)
+  rw [hi.agg, cmdsKnown_eq_sum c hn]
+  congr 1
+  apply List.map_congr_left
+  intro l hl
+  exact (hi.lane l (by simpa using hl)).symm
+
+/-- A lane that does not exist never counts anything (and its commands are not in the aggregate). -/
+theorem C20_command_unknown_lane_uncounted (c : Cfg) (ops : List Op) (l : Nat) (hl : c.known.contains l = false) :
+    (run c {} ops).laneSnap l + (run c {} ops).laneCount l = 0 :=
+  (cinv_run c ops {} (cinv_init c)).other l hl
+
+/-- **A rejected command is counted like an accepted one**: whatever the lane's sender does with the body, the
+command bumps the lane's counter and the aggregate by one each (the code counts before it looks). -/
+theorem C20_command_counted_before_inspection (c : Cfg) (s : St) (r l b : Nat) :
+    (handleCommand c s r l b).laneCount l = s.laneCount l + 1 ∧ (handleCommand c s r l b).aggCount = s.aggCount + 1 := by
+  obtain ⟨h1, h2, _, _⟩ := handleCommand_counts c s r l b
+  rw [h1, h2]; simp
+
+/-- A snapshot hands out exactly the counter's value and resets it. -/
+theorem C20_command_snapshot_takes_the_counter (c : Cfg) (s : St) (l : Nat) :
+    (step c s (.snapLane l)).laneSnap l = s.laneSnap l + s.laneCount l ∧ (step c s (.snapLane l)).laneCount l = 0 := by
+  simp [step]
+
+/-! Non-vacuity: lane 1 is a map lane; remote 1's second command (body 900001) is rejected by the lane's sender —
+counted by the lane and by the aggregate, not forwarded; the command for lane 7 (unknown) is counted by nobody. -/
+example :
+    let s := run (mkCfg 2 1) {} [.send 1 1 (.command 5), .send 1 1 (.command 900001), .send 2 0 (.command 6),
+      .send 2 7 (.command 8), .send 1 0 .sync, .pick 1, .pick 1, .snapLane 1, .pick 2, .pick 2, .pick 1, .idle, .snapAgg]
+    (s.laneSnap 1, s.laneCount 1, s.laneCount 0, s.aggSnap, s.aggCount, s.laneStream 1)
+      = (2, 0, 1, 3, 0, [.command 1 5]) := by decide
+
+end SwimVerif.RF
